@@ -418,7 +418,9 @@ pub fn gen_op(rng: &mut Rng, sh: &WorldShape, pr: &Profile) -> Op {
             } else {
                 None
             };
-            Op::Query { site: rng.below(sh.nsites.max(1) as u64) as u8, mac, key, plan: gen_plan(rng, sh, mac, f) }
+            let plan = gen_plan(rng, sh, mac, f);
+            let dp = if f.drop_panic && mac == QMacro::IterDestroy && rng.chance(1, 4) { Some(rng.below(12) as u32) } else { None };
+            Op::Query { site: rng.below(sh.nsites.max(1) as u64) as u8, mac, key, plan, dp }
         }
         OPK_CLONE => Op::CloneWorld {
             panic_at: if f.clone_panic && rng.chance(1, 2) { Some(rng.below(64) as u32) } else { None },
@@ -438,7 +440,7 @@ pub fn gen_op(rng: &mut Rng, sh: &WorldShape, pr: &Profile) -> Op {
             };
             Op::Forge { f: fz }
         }
-        OPK_PRESET => Op::Preset { a, slot_back: rng.below(4) as u32, ver_back: rng.below(4) as u32 },
+        OPK_PRESET => Op::Preset { a, slot_back: rng.below(4) as u32, ver_back: rng.below(4) as u32, bits: gen_bits(rng) },
         OPK_CYCLE => {
             let top = if rng.chance(1, 4) { 40 } else { 6 };
             Op::Cycle { a, n: 1 + rng.below(top) as u32 }
@@ -456,6 +458,15 @@ pub fn gen_op(rng: &mut Rng, sh: &WorldShape, pr: &Profile) -> Op {
         }
         OPK_REPLACE => Op::ReplaceArch { a, cap: None },
         _ => Op::AuditAll,
+    }
+}
+
+/// Mostly the real 2^32 boundary; sometimes a smaller power of two (silent truncation).
+fn gen_bits(rng: &mut Rng) -> Option<u8> {
+    if rng.chance(2, 3) {
+        None
+    } else {
+        Some([8u8, 12, 16, 20, 24, 28, 31][rng.below(7) as usize])
     }
 }
 
@@ -500,7 +511,7 @@ pub fn gen_spec(prop: &str, seed: u64, sh: &WorldShape, cfg: BuildCfg) -> RunSpe
     // boundary members start with a preset so that later churn crosses 2^32
     if pr.faults.preset && rng.chance(2, 3) {
         let a = rng.below(sh.narch as u64) as u8;
-        ops.push(Op::Preset { a, slot_back: rng.below(3) as u32, ver_back: rng.below(4) as u32 });
+        ops.push(Op::Preset { a, slot_back: rng.below(3) as u32, ver_back: rng.below(4) as u32, bits: gen_bits(&mut rng) });
         for _ in 0..rng.below(3) {
             ops.push(Op::Create { a, lvl: Lvl::Arch, p: rng.next() });
         }
